@@ -120,8 +120,95 @@ def run(ctx):
         ctx.ob("Z3", "receive_sync_message_inner|%s reset when the peer has no heads" % fld[1:], ok, r.rec["sp"],
                "%d reset(s), all behind message_heads.is_empty()" % len(resets_) if ok else
                "%s is not reset to its default exactly when the peer reports empty heads (resets found: %d): a peer that lost its data is not sent everything again, or a healthy session is restarted" % (fld[1:], len(resets_)))
+    # ---------------- Z2b: the reset answer asks for everything (an empty `have` asks for nothing)
+    ctx.rule("Z2b", "Message::reset: the `have` list of the reset message contains a Have value (the default one: `send me everything since nothing`)")
+    RS = [p for p in f.fns if norm_fn(p) == "automerge::sync::Message::reset"]
+    if len(RS) != 1:
+        raise facts.AnchorMissing("Message::reset")
+    rb = ctx.body(RS[0])
+    ctx.analysed_fns.add(RS[0])
+    maggs = [(bi, st) for bi, blk in enumerate(rb.blocks) for st in blk["st"] if st["rv"]["k"] == "Agg" and st["rv"].get("adt") == "automerge::sync::Message"]
+    ctx.floor("Message constructions in Message::reset", len(maggs), 1)
+    HAVE = "automerge::sync::state::Have"
+    made = any((callee(t) or "").endswith("Default>::default") and HAVE in (t.get("resargs") or t.get("fnargs") or "") for _, t in rb.calls()) or any(st["rv"]["k"] == "Agg" and st["rv"].get("adt") == HAVE for blk in rb.blocks for st in blk["st"])
+    for bi, st in maggs:
+        rv = st["rv"]
+        pv = rb.provenance(rv["o"][rv["fields"].index("have")], through_calls=True)
+        cs = {norm_fn(c).split("::")[-1] for c in pv.callees()}
+        empty_only = "new" in cs and not ({"into_vec", "from_elem", "push", "from"} & cs)
+        ok = made and not empty_only
+        ctx.ob("Z2b", "Message::reset|have is not empty", ok, st["sp"], "carries a default Have" if ok else
+               "the reset message is built with an empty `have`: the receiver takes an empty have for `nothing requested`, so the peer that was just reset is sent nothing and both sides keep resetting each other")
+    # ---------------- Z4: an explicit `need` is honoured whatever the requester's last_sync says
+    ctx.rule("Z4", "get_hashes_to_send: pushing a needed hash into the answer depends only on the loop, on has_change (we have it) and on the dedup test against the set already chosen for sending")
+    GH = [p for p in f.fns if norm_fn(p).endswith("get_hashes_to_send") and "{closure" not in p and r_is_lib(f, p)]
+    if len(GH) != 1:
+        raise facts.AnchorMissing("get_hashes_to_send")
+    gb = ctx.body(GH[0])
+    ctx.analysed_fns.add(GH[0])
+    np_ = [i for i in range(1, gb.argc + 1) if "ChangeHash" in gb.local_ty(i)]
+    from .C28 import control_switches
+    pushes = []
+    for bi, t in gb.calls():
+        if (norm_fn(t.get("fn")) or "").endswith("Vec::push") and len(t["args"]) > 1:
+            pv = gb.provenance(t["args"][1], through_calls=True)
+            if np_ and pv.depends_on_param(np_[0]) and "ChangeHash" in " ".join(t.get("argtys", [])):
+                pushes.append((bi, t))
+    ctx.floor("pushes of needed hashes in get_hashes_to_send", len(pushes), 1)
+    for k, (bi, t) in util.ordinal_keys(pushes, lambda it: "get_hashes_to_send|needed hash pushed"):
+        out_o = gb.operand_origin(t["args"][0])
+        bad = []
+        # transitive control dependence (`a && b`: the push depends on b's switch, which depends on a's)
+        ctl, work, seen_ = [], [bi], set()
+        while work:
+            x = work.pop()
+            for sb, sw in control_switches(gb, x):
+                if sb not in seen_:
+                    seen_.add(sb)
+                    ctl.append((sb, sw))
+                    work.append(sb)
+        for sb, sw in ctl:
+            src = gb.bool_operand_source(sw["op"])
+            if src and src["kind"] == "discr":
+                d = gb.single_def(src["origin"][0])
+                if d and d[1] == "t" and (norm_fn(d[2].get("fn")) or "").endswith("Iterator::next"):
+                    continue
+            if src and src["kind"] == "call":
+                c = norm_fn(src["callee"]) or ""
+                last = c.split("::")[-1]
+                if last == "is_empty":
+                    continue                   # the `have.is_empty()` split at the top
+                if last == "contains":
+                    # the set tested must itself be sent: some push into the same output vector happens when the set *contains* the
+                    # hash, and the needed hash is pushed when it does *not* (a pure dedup test)
+                    def polarity(sb_, sw_, src_, blk_):
+                        zero = [tb for v, tb in sw_["targets"] if v == "0"]
+                        t_e = [(sb_, zero[0])] if src_["negated"] and zero else ([] if src_["negated"] else [(sb_, sw_["otherwise"])])
+                        f_e = [(sb_, sw_["otherwise"])] if src_["negated"] else ([(sb_, zero[0])] if zero else [])
+                        if t_e and gb.edges_dominate(t_e, blk_):
+                            return True
+                        if f_e and gb.edges_dominate(f_e, blk_):
+                            return False
+                        return None
+                    so = gb.operand_origin(src["t"]["args"][0])
+                    feeds = False
+                    for pb, pt in gb.calls():
+                        if (norm_fn(pt.get("fn")) or "").endswith("Vec::push") and pb != bi and gb.operand_origin(pt["args"][0]) == out_o:
+                            for sb2, sw2 in control_switches(gb, pb):
+                                s2 = gb.bool_operand_source(sw2["op"])
+                                if s2 and s2["kind"] == "call" and (norm_fn(s2["callee"]) or "").split("::")[-1] == "contains" and gb.operand_origin(s2["t"]["args"][0]) == so and polarity(sb2, sw2, s2, pb) is True:
+                                    feeds = True
+                    if feeds and polarity(sb, sw, src, bi) is False:
+                        continue
+            bad.append(util.where(gb, sb))
+        ctx.ob("Z4", k, not bad, t["sp"], "depends only on the dedup test against the hashes already chosen" if not bad else
+               "a hash the peer explicitly needs (and we have) is left out under a further condition (%s): a peer whose document is older than its last_sync never gets the change back" % bad)
     C20.run(ctx)
     ctx.level = "proof"
     ctx.decides = ("State::parse fills shared_heads from the input and every session field with a constant default; generate_sync_message returns Message::reset(our heads) exactly when a change of their last_sync is unknown to us; "
                    "receive_sync_message_inner resets last_sent_heads and sent_hashes when the peer's heads are empty; plus C20's bookkeeping rules.")
     ctx.not_decided = "convergence of every connected component and absence of permanent waiting across arbitrary topologies and disconnects (liveness)."
+
+
+def r_is_lib(f, p):
+    return f.fns[p]["ckey"] == ("automerge", "lib")
